@@ -212,6 +212,10 @@ def _run(r, key, ksp, params, seed, **extra):
     np.random.seed(seed % (2 ** 32))
     try:
         with np.errstate(all="ignore"):
+            if seed % 3 == 0 and all(k in params for k in ("calib_width", "thresh", "kernel_width", "crop", "max_iter")):
+                # documented positional order (ksp, calib_width, thresh, kernel_width, crop, max_iter)
+                return True, mr.app.EspiritCalib(ksp, params["calib_width"], params["thresh"], params["kernel_width"], params["crop"],
+                                                 params["max_iter"], show_pbar=False, **extra).run()
             return True, mr.app.EspiritCalib(ksp, show_pbar=False, **params, **extra).run()
     except Exception as e:  # every generated configuration is inside the documented domain
         r.fail(key + ":raises", "%s: %s" % (type(e).__name__, e))
